@@ -450,8 +450,7 @@ void reb_integrator_trace_bs_step(struct reb_simulation* const r, double dt){
             r->particles[0].vy = star.vy;
             r->particles[0].vz = star.vz;
             
-	    reb_collision_search(r);
-	    if (r->N_allocated_collisions) ri_trace->force_accept = 1;
+	    if (reb_collision_search(r)) ri_trace->force_accept = 1; // a collision was resolved in this sub-step
 
             if (nbody_ode->length != ri_trace->encounter_N*3*2){
 		// Just re-create the ODE
@@ -737,8 +736,7 @@ static void reb_integrator_trace_step(struct reb_simulation* const r){
                     if ((r->t+r->dt)*dtsign >  t_needed*dtsign){
                         r->dt = t_needed-r->t;
                     }
-                    reb_collision_search(r);
-		    if (r->N_allocated_collisions) r->ri_trace.force_accept = 1;
+                    if (reb_collision_search(r)) r->ri_trace.force_accept = 1; // a collision was resolved in this sub-step
                 }
                 // Resetting IAS15 here reduces binary file size.
                 reb_integrator_ias15_reset(r);
@@ -785,8 +783,7 @@ static void reb_integrator_trace_step(struct reb_simulation* const r){
 
                         reb_integrator_bs_update_particles(r, nbody_ode->y);
 
-                        reb_collision_search(r);
-		        if (r->N_allocated_collisions) r->ri_trace.force_accept = 1;
+                        if (reb_collision_search(r)) r->ri_trace.force_accept = 1; // a collision was resolved in this sub-step
                     }
                     if (nbody_ode){
                         reb_ode_free(nbody_ode);
